@@ -238,6 +238,8 @@ class Engine:
             if isinstance(v, bool): return vbool(v)
             if isinstance(v, int): return vint(v)
             if v is None: return NONE
+            if isinstance(v, bytes) and getattr(self.spec, 'bytes_as_lists', False):
+                return self.newlist('int', [vint(b_) for b_ in v], p)
             if isinstance(v, (bytes, str)): return V('str', strlit(v if isinstance(v, str) else v.decode('latin1')))
             raise Unsupported(f'constant {v!r}')
         if isinstance(e, ast.Name):
@@ -394,6 +396,8 @@ class Engine:
                 ek = elem_kind(src.kind); r = p.heap.new(p, 'lst')
                 p.heap.store(r, items_field(ek), self.litems(src, p)); p.heap.store(r, '$len', self.llen(src, p)); return V(src.kind, r)
             raise Unsupported('list() of ' + src.kind)
+        if d == 'isinstance' and d in self.spec.callees:          # the class argument is not a value of the modelled heap
+            return self.spec.callees[d](self, p, [self.ev(args[0], p), V('pyconst', None, value=ast.unparse(args[1]))], {}, e)
         if d in self.spec.callees:
             kw = {k.arg: self.ev(k.value, p) for k in e.keywords}
             return self.spec.callees[d](self, p, [self.ev(a, p) for a in args], kw, e)
@@ -414,6 +418,8 @@ class Engine:
             recv_d = self.dotted(f.value)
             if recv_d == 'logging': return NONE                                    # logging.* dropped
             recv = self.ev(f.value, p)
+            if ('.' + f.attr) in self.spec.callees:            # method of an opaque object given a contract by the sidecar (e.g. ndarray.tobytes)
+                return self.spec.callees['.' + f.attr](self, p, [recv] + [self.ev(a, p) for a in args], {k.arg: self.ev(k.value, p) for k in e.keywords}, e)
             if recv.kind.startswith('dict[') and f.attr == 'pop' and len(args) in (1, 2):
                 # d.pop(k[, default]): the key leaves the ordered key sequence (later keys move up by one)
                 K, Vk, keys, has, mp, n = self.dparts(recv, p); kt = self.ev(args[0], p).term; present = has[kt]
@@ -515,6 +521,13 @@ class Engine:
             p.heap.store(lst.term, '$items:int', new); return [Outcome('next', p)]
         if isinstance(s, ast.AugAssign):
             cur = self.ev(s.target, p); rhs = self.ev(s.value, p)
+            if cur.kind.startswith('list[') and isinstance(s.op, ast.Add) and rhs.kind == cur.kind:
+                # in-place extend (list += list, bytearray += bytes): pointwise characterisation of the new contents
+                ek = elem_kind(cur.kind); fld = items_field(ek); n = self.llen(cur, p); m = self.llen(rhs, p); a = self.litems(cur, p); b = self.litems(rhs, p)
+                self.frame(p, cur.term, fld, s.lineno)
+                new = fresh('ext', p.heap.fsort(fld)); ARR_SIG[new.decl().name()] = _canon_arr(a)
+                p.facts.append(Schematic(1, lambda k, new=new, a=a, b=b, n=n, m=m: Implies(And(0 <= k, k < n + m), new[k] == If(k < n, a[k], b[k - n])), 'list+='))
+                p.heap.store(cur.term, fld, new); p.heap.store(cur.term, '$len', n + m); return [Outcome('next', p)]
             if cur.kind == 'int' and isinstance(s.op, ast.Add): val = vint(cur.term + rhs.term)
             elif cur.kind == 'int' and isinstance(s.op, ast.Sub): val = vint(cur.term - rhs.term)
             elif cur.kind == 'str' and isinstance(s.op, ast.Add): val = V('str', sconcat(cur.term, rhs.term))
@@ -545,10 +558,63 @@ class Engine:
                     if not handled: outs.append(o)
                 else: outs.append(o)
             return outs
+        if isinstance(s, ast.Delete):
+            for t in s.targets:
+                if isinstance(t, ast.Name): p.env.pop(t.id, None)
+                else: raise Unsupported('del of a non-name')
+            return [Outcome('next', p)]
+        if isinstance(s, ast.While): return self.while_loop(s, p)
         if isinstance(s, ast.Break): return [Outcome('break', p)]
         if isinstance(s, ast.Continue): return [Outcome('continue', p)]
         raise Unsupported(ast.dump(s)[:120])
     # -------------------------------------------------------------------------------------------- loops
+    def while_loop(self, s, p):
+        """while cond: body — cut by the sidecar invariant spec.while_invariants[k](E, ctx, p, pre) (k = ordinal among the function's
+        while statements, ast.walk order).  Partial correctness only: termination is not verified."""
+        if s.orelse: raise Unsupported('while/else')
+        ids = getattr(self, 'while_ids', None)
+        if ids is None:
+            ids = self.while_ids = {}
+            for nd in ast.walk(self.node):
+                if isinstance(nd, ast.While): ids.setdefault(id(nd), len(ids))
+        k = ids[id(s)]
+        invs = getattr(self.spec, 'while_invariants', {})
+        if k not in invs: raise Unsupported(f'while loop {k}@{s.lineno} has no invariant (stale or missing contract)')
+        inv = invs[k]; pre = p.fork()
+        for label, g in inv(self, Ctx('goal'), p, pre): self.emit(p, f'while{k}-entry:{label}', g, s.lineno)
+        _, wn = self.written(s.body)
+        global REC, REC_LOC
+        saved_rec, saved_loc = set(REC), {k_: list(v_) for k_, v_ in REC_LOC.items()}; REC.clear(); REC_LOC.clear(); self.mute += 1
+        try:
+            d = p.fork(); n0 = len(d.fresh); paths = [d]
+            for o_ in self.block(s.body, d): paths.append(o_.path)
+        finally: self.mute -= 1
+        wf = set(REC); locs = {k_: list(v_) for k_, v_ in REC_LOC.items()}
+        REC.clear(); REC.update(saved_rec | wf); REC_LOC.clear(); REC_LOC.update(saved_loc)
+        for k_, v_ in locs.items(): REC_LOC.setdefault(k_, []).extend(v_)
+        wf.discard('$alloc'); dry_fresh = {r.get_id() for q_ in paths for r in q_.fresh[n0:]}
+        def havoc(q, tag):
+            for f in wf:
+                rs = [r for r in locs.get(f, [None]) if r is None or r.get_id() not in dry_fresh]
+                if not rs: continue
+                # a while body re-executes on the state it produced: only stores to objects named by loop-invariant LOCALS are precise
+                if all(r is not None and r.num_args() == 0 for r in rs): q.heap.havoc_at(f, list({r.get_id(): r for r in rs}.values()), f'W{k}{tag}')
+                else: q.heap.havoc([f], f'W{k}{tag}')
+            for nme in wn:
+                if nme in q.env and (q.env[nme].kind in ('int', 'bool', 'str', 'ref') or q.env[nme].kind.startswith('list[')):
+                    q.env[nme] = V(q.env[nme].kind, fresh(f'{nme}_W{k}{tag}', sort_of(q.env[nme].kind)))
+        b = p.fork(); havoc(b, 'i'); ch = Ctx('hyp')
+        for label, g in inv(self, ch, b, pre): b.pc.append(g)
+        b.facts += ch.schem
+        c = self.truth(self.ev(s.test, b), b)
+        body = b.fork(); body.pc.append(c); outs = []
+        for o in self.block(s.body, body):
+            if o.kind in ('next', 'continue'):
+                for label, g in inv(self, Ctx('goal'), o.path, pre): self.emit(o.path, f'while{k}-preserve:{label}', g, s.lineno)
+            elif o.kind == 'break': outs.append(Outcome('next', o.path))
+            else: outs.append(o)
+        ex = b.fork(); ex.pc.append(Not(c)); outs.append(Outcome('next', ex))
+        return outs
     def written(self, body):
         """heap fields and local names possibly written by a loop body (syntactic; callee effects via spec.callee_modifies)"""
         fields, names = set(), set()
@@ -767,7 +833,8 @@ def decide(E, spec, timeout=60000, B=2, exclude=()):
         ob.schem = ob.schem + extra
         r, dt, ninst, s = discharge(ob, timeout=timeout)
         if r == z3.unsat: out.append((ob, 'proved', dt, f'{ninst} instances', None)); continue
-        r2, dt2, s2 = refute(ob, B=B, bound_terms=spec.bounds(E), timeout=timeout)
+        if getattr(spec, 'refutable', True): r2, dt2, s2 = refute(ob, B=B, bound_terms=spec.bounds(E), timeout=timeout)
+        else: r2, dt2, s2 = 'skipped (quantified ranges exceed any small scope)', 0.0, None
         if r2 == z3.sat: out.append((ob, 'refuted', dt + dt2, 'bounded-scope counter-model', s2.model()))
         else: out.append((ob, 'unknown', dt + dt2, f'stage1={r} stage2={r2}', None))
     return out
@@ -819,7 +886,8 @@ def _decide_one(i):
     try:
         r, dt, ninst, s = discharge_rel(ob, spec, timeout=timeout)
         if r == z3.unsat: return (i, 'proved', dt, f'{ninst} instances', None)
-        r2, dt2, s2 = refute(ob, B=B, bound_terms=spec.bounds(E), timeout=timeout)
+        if getattr(spec, 'refutable', True): r2, dt2, s2 = refute(ob, B=B, bound_terms=spec.bounds(E), timeout=timeout)
+        else: r2, dt2, s2 = 'skipped (quantified ranges exceed any small scope)', 0.0, None
         if r2 == z3.sat:
             m = s2.model(); vals = spec.model_values(E, m) if hasattr(spec, 'model_values') else {}
             return (i, 'refuted', dt + dt2, 'bounded-scope counter-model', vals)
